@@ -13,6 +13,12 @@
 //!   prefixes of the history (all of them for short histories) the prefix is replayed
 //!   into yet another `Database` and all files / all kinds are compared there.
 //!
+//! A second search (`c13/project.rs`) drives `trust_hir::Project` - the SourceKey-addressed
+//! wrapper (source registry + database) through which the language server adds, edits,
+//! removes, renames and re-adds files - with the same oracle per live key plus the registry
+//! invariants (distinct keys have distinct ids, `source_text(id_of(key))` is the key's text,
+//! as many file ids as live keys).
+//!
 //! In both passes every query is issued twice in a row and must return an equal answer, and
 //! any panic (in the incremental or the fresh database) is a violation.
 
@@ -29,6 +35,7 @@ use crate::engine::tape::Tape;
 use crate::engine::{Probe, PropertyInfo, RunCtx};
 
 mod gen;
+mod project;
 mod render;
 
 use gen::{History, Op, QueryKind, NFILES};
@@ -37,11 +44,11 @@ pub fn info() -> PropertyInfo {
     PropertyInfo {
         id: "C13",
         level: "exploration",
-        rule: "case = history of 1..40 ops {set, remove, query(diagnostics|analyze|file_symbols|type_of|expr_id_at_offset)} over FileId 1..5 with small edits of a cross-referencing generated project; non-trivial = the history contains an edit (set/remove) of file A after which the from-scratch answers for another, textually unchanged file B differ from before the edit while B had already been queried by the history since B's last own change, or it removes a file and later re-adds it; distinct by SHA-256 of the op list",
+        rule: "search `history`: case = history of 1..40 ops {set, remove, query(diagnostics|analyze|file_symbols|type_of|expr_id_at_offset)} over FileId 1..5 with small edits of a cross-referencing generated project, run against trust_hir::Database; non-trivial = the history contains an edit (set/remove) of file A after which the from-scratch answers for another, textually unchanged file B differ from before the edit while B had already been queried by the history since B's last own change, or it removes a file and later re-adds it. Search `project`: case = history of 1..40 ops {set, remove, rename (remove old, remove new, set new), query} over 8 source keys (<= 6 live) run against trust_hir::Project; non-trivial = some key gets a file id allocated (new key or re-add) after another key was removed while >= 2 other keys are live. Distinct by SHA-256 of the op list",
         assumptions: &[
-            "single-threaded use of one Database (no concurrent edit/query; cancellation is not exercised)",
-            "the from-scratch database is loaded in ascending FileId order",
-            "files are FileId 1..5, texts <= ~3 KB (generated project) or mutated repository .st files <= 2.5 KB",
+            "single-threaded use of one Database / Project (no concurrent edit/query; cancellation is not exercised)",
+            "the from-scratch Database is loaded in ascending FileId order; the from-scratch Project is loaded in the order of the incremental project's FileIds (name clashes are resolved by FileId order, so the relative order is part of the input)",
+            "files are FileId 1..5 resp. 8 source keys (virtual and non-existing paths), texts <= ~3 KB (generated project) or mutated repository .st files <= 2.5 KB",
         ],
         workers_quick: 8,
         workers_thorough: 16,
@@ -120,6 +127,14 @@ fn type_opaque(t: TypeId) -> String {
 /// Canonical rendering of one answer. `table` (the file's own analysis table in the same
 /// database) renders user types structurally; without it they are opaque.
 fn render_raw(raw: &Raw, table: Option<&trust_hir::symbols::SymbolTable>) -> Vec<String> {
+    render_raw_with(raw, table, &render::by_file_id)
+}
+
+fn render_raw_with(
+    raw: &Raw,
+    table: Option<&trust_hir::symbols::SymbolTable>,
+    namer: render::FileNamer,
+) -> Vec<String> {
     let ty = |t: TypeId| match table {
         Some(tab) => render::type_str(tab, t, 3),
         None => type_opaque(t),
@@ -129,10 +144,10 @@ fn render_raw(raw: &Raw, table: Option<&trust_hir::symbols::SymbolTable>) -> Vec
         Raw::Analysis(d, s) => {
             let mut v = render::diagnostics(d);
             v.push("--symbols--".into());
-            v.extend(render::symbol_table(s));
+            v.extend(render::symbol_table_with(s, namer));
             v
         }
-        Raw::Symbols(s) => render::symbol_table(s),
+        Raw::Symbols(s) => render::symbol_table_with(s, namer),
         Raw::TypeAt(id, t) => vec![format!(
             "expr={id:?} type={}",
             t.map(ty).unwrap_or_else(|| "-".into())
@@ -227,53 +242,71 @@ fn probe_offsets(text: Option<&String>) -> Vec<u32> {
     out
 }
 
+/// Ask everything about one file (each query twice). `reverse` flips the order of the kinds.
+fn file_snapshot(
+    db: &Database,
+    id: FileId,
+    text: Option<&String>,
+    reverse: bool,
+    who: &str,
+    namer: render::FileNamer,
+) -> Result<FileSnap, String> {
+    let mut snap = FileSnap::default();
+    let kinds: [u8; 4] = if reverse { [3, 2, 1, 0] } else { [0, 1, 2, 3] };
+    let mut table: Option<Arc<trust_hir::symbols::SymbolTable>> = None;
+    let mut pending_exprs: Vec<(u32, Raw)> = Vec::new();
+    for k in kinds {
+        match k {
+            0 => {
+                let r = ask_twice(db, QueryKind::Diagnostics, id, 0, who)?;
+                snap.diags = render_raw(&r, None);
+            }
+            1 => {
+                let r = ask_twice(db, QueryKind::Analyze, id, 0, who)?;
+                if let Raw::Analysis(d, s) = &r {
+                    snap.an_diags = render::diagnostics(d);
+                    snap.an_syms = render::symbol_table_with(s, namer);
+                    table = Some(s.clone());
+                }
+            }
+            2 => {
+                let r = ask_twice(db, QueryKind::FileSymbols, id, 0, who)?;
+                snap.file_syms = render_raw_with(&r, None, namer);
+            }
+            _ => {
+                for off in probe_offsets(text) {
+                    let r = ask_twice(db, QueryKind::TypeOfAt, id, off, who)?;
+                    pending_exprs.push((off, r));
+                }
+                let r = ask_twice(db, QueryKind::TypeOfId, id, 0, who)?;
+                pending_exprs.push((u32::MAX, r));
+            }
+        }
+    }
+    let table = match table {
+        Some(t) => t,
+        None => db.analyze(id).symbols.clone(),
+    };
+    for (off, r) in pending_exprs {
+        snap.exprs.push(format!("@{off}: {}", render_raw(&r, Some(&table)).join(" ")));
+    }
+    Ok(snap)
+}
+
 /// Ask everything about every file. `rot` varies the order in which files and kinds are
 /// asked (it decides which memoised result is revalidated first after an edit).
 fn snapshot(db: &Database, texts: &[Option<String>], rot: usize, who: &str) -> Result<Snapshot, String> {
     let mut files = vec![FileSnap::default(); NFILES];
     for i in 0..NFILES {
         let f = (i + rot) % NFILES;
-        let id = fid(f);
-        let mut snap = FileSnap::default();
-        let kinds: [u8; 4] = if (rot / NFILES) % 2 == 0 { [0, 1, 2, 3] } else { [3, 2, 1, 0] };
-        let mut table: Option<Arc<trust_hir::symbols::SymbolTable>> = None;
-        let mut pending_exprs: Vec<(u32, Raw)> = Vec::new();
-        for k in kinds {
-            match k {
-                0 => {
-                    let r = ask_twice(db, QueryKind::Diagnostics, id, 0, who)?;
-                    snap.diags = render_raw(&r, None);
-                }
-                1 => {
-                    let r = ask_twice(db, QueryKind::Analyze, id, 0, who)?;
-                    if let Raw::Analysis(d, s) = &r {
-                        snap.an_diags = render::diagnostics(d);
-                        snap.an_syms = render::symbol_table(s);
-                        table = Some(s.clone());
-                    }
-                }
-                2 => {
-                    let r = ask_twice(db, QueryKind::FileSymbols, id, 0, who)?;
-                    snap.file_syms = render_raw(&r, None);
-                }
-                _ => {
-                    for off in probe_offsets(texts[f].as_ref()) {
-                        let r = ask_twice(db, QueryKind::TypeOfAt, id, off, who)?;
-                        pending_exprs.push((off, r));
-                    }
-                    let r = ask_twice(db, QueryKind::TypeOfId, id, 0, who)?;
-                    pending_exprs.push((u32::MAX, r));
-                }
-            }
-        }
-        let table = match table {
-            Some(t) => t,
-            None => db.analyze(id).symbols.clone(),
-        };
-        for (off, r) in pending_exprs {
-            snap.exprs.push(format!("@{off}: {}", render_raw(&r, Some(&table)).join(" ")));
-        }
-        files[f] = snap;
+        files[f] = file_snapshot(
+            db,
+            fid(f),
+            texts[f].as_ref(),
+            (rot / NFILES) % 2 == 1,
+            who,
+            &render::by_file_id,
+        )?;
     }
     Ok(Snapshot { files })
 }
@@ -283,27 +316,29 @@ static COMPARED_SNAPSHOT_PARTS: AtomicU64 = AtomicU64::new(0);
 static COMPARED_QUERIES: AtomicU64 = AtomicU64::new(0);
 static FRESH_DATABASES: AtomicU64 = AtomicU64::new(0);
 
-fn compare_snapshots(inc: &Snapshot, fresh: &Snapshot, ctx: &str) -> Result<(), String> {
-    COMPARED_SNAPSHOT_PARTS.fetch_add((NFILES * 5) as u64, Ordering::Relaxed);
-    for f in 0..NFILES {
-        let a = &inc.files[f];
-        let b = &fresh.files[f];
-        let parts: [(&str, &Vec<String>, &Vec<String>); 5] = [
-            ("diagnostics()", &a.diags, &b.diags),
-            ("analyze().diagnostics", &a.an_diags, &b.an_diags),
-            ("analyze().symbols", &a.an_syms, &b.an_syms),
-            ("file_symbols()", &a.file_syms, &b.file_syms),
-            ("type_of(expr_id_at_offset())", &a.exprs, &b.exprs),
-        ];
-        for (what, x, y) in parts {
-            if x != y {
-                return Err(format!(
-                    "{ctx}: {what} of file {} differs from a brand-new database with the same texts:{}",
-                    f + 1,
-                    diff_lines(x, y)
-                ));
-            }
+fn compare_file_snaps(a: &FileSnap, b: &FileSnap, ctx: &str, file: &str) -> Result<(), String> {
+    COMPARED_SNAPSHOT_PARTS.fetch_add(5, Ordering::Relaxed);
+    let parts: [(&str, &Vec<String>, &Vec<String>); 5] = [
+        ("diagnostics()", &a.diags, &b.diags),
+        ("analyze().diagnostics", &a.an_diags, &b.an_diags),
+        ("analyze().symbols", &a.an_syms, &b.an_syms),
+        ("file_symbols()", &a.file_syms, &b.file_syms),
+        ("type_of(expr_id_at_offset())", &a.exprs, &b.exprs),
+    ];
+    for (what, x, y) in parts {
+        if x != y {
+            return Err(format!(
+                "{ctx}: {what} of {file} differs from a brand-new database with the same texts:{}",
+                diff_lines(x, y)
+            ));
         }
+    }
+    Ok(())
+}
+
+fn compare_snapshots(inc: &Snapshot, fresh: &Snapshot, ctx: &str) -> Result<(), String> {
+    for f in 0..NFILES {
+        compare_file_snaps(&inc.files[f], &fresh.files[f], ctx, &format!("file {}", f + 1))?;
     }
     Ok(())
 }
@@ -385,10 +420,14 @@ fn apply_to_db(db: &mut Database, op: &Op) {
 }
 
 fn describe(op: &Op) -> String {
+    describe_with(op, &|f| format!("file {}", f % NFILES + 1))
+}
+
+fn describe_with(op: &Op, name: &dyn Fn(usize) -> String) -> String {
     match op {
-        Op::Set { f, text } => format!("set(file {}, {} bytes)", *f as usize % NFILES + 1, text.len()),
-        Op::Remove { f } => format!("remove(file {})", *f as usize % NFILES + 1),
-        Op::Query { kind, f, arg } => format!("query({kind:?}, file {}, {arg})", *f as usize % NFILES + 1),
+        Op::Set { f, text } => format!("set({}, {} bytes)", name(*f as usize), text.len()),
+        Op::Remove { f } => format!("remove({})", name(*f as usize)),
+        Op::Query { kind, f, arg } => format!("query({kind:?}, {}, {arg})", name(*f as usize)),
     }
 }
 
@@ -627,25 +666,48 @@ fn classify(h: &History, st: &mut States, probe: &mut Probe) -> Result<(), Strin
 /// and proptest would try 4096 of them, so only the first `SHRINK_BUDGET` candidates are
 /// really evaluated - later ones are declared "not simpler" (Ok), which ends the shrinking
 /// with the smallest case that really failed. Count-based, hence deterministic.
-static FAILED: AtomicBool = AtomicBool::new(false);
-static SHRINK_CALLS: AtomicU32 = AtomicU32::new(0);
+struct ShrinkBudget {
+    failed: AtomicBool,
+    calls: AtomicU32,
+}
+static DB_BUDGET: ShrinkBudget = ShrinkBudget {
+    failed: AtomicBool::new(false),
+    calls: AtomicU32::new(0),
+};
+static PROJECT_BUDGET: ShrinkBudget = ShrinkBudget {
+    failed: AtomicBool::new(false),
+    calls: AtomicU32::new(0),
+};
 const SHRINK_BUDGET: u32 = 500;
 
-fn check_history(h: &History, probe: &mut Probe) -> Result<(), String> {
+fn budgeted(
+    budget: &ShrinkBudget,
+    h: &History,
+    probe: &mut Probe,
+    inner: fn(&History, &mut Probe) -> Result<(), String>,
+) -> Result<(), String> {
     if h.ops.is_empty() {
         return Ok(());
     }
     if h.generated
-        && FAILED.load(Ordering::Relaxed)
-        && SHRINK_CALLS.fetch_add(1, Ordering::Relaxed) >= SHRINK_BUDGET
+        && budget.failed.load(Ordering::Relaxed)
+        && budget.calls.fetch_add(1, Ordering::Relaxed) >= SHRINK_BUDGET
     {
         return Ok(());
     }
-    let res = crate::engine::catch(|| check_history_inner(h, probe)).and_then(|r| r);
+    let res = crate::engine::catch(|| inner(h, probe)).and_then(|r| r);
     if res.is_err() && h.generated {
-        FAILED.store(true, Ordering::Relaxed);
+        budget.failed.store(true, Ordering::Relaxed);
     }
     res
+}
+
+fn check_history(h: &History, probe: &mut Probe) -> Result<(), String> {
+    budgeted(&DB_BUDGET, h, probe, check_history_inner)
+}
+
+fn check_project_history(h: &History, probe: &mut Probe) -> Result<(), String> {
+    budgeted(&PROJECT_BUDGET, h, probe, project::check_project_history)
 }
 
 fn check_history_inner(h: &History, probe: &mut Probe) -> Result<(), String> {
@@ -657,6 +719,10 @@ fn check_history_inner(h: &History, probe: &mut Probe) -> Result<(), String> {
 }
 
 fn history_strategy() -> impl Strategy<Value = History> {
+    history_strategy_cfg(&gen::DB_CFG)
+}
+
+fn history_strategy_cfg(cfg: &'static gen::GenCfg) -> impl Strategy<Value = History> {
     // own word mix: a history needs ~10 words per op, so the tape has a minimum length, and
     // the boundary words (0, MAX, k<<28) are rarer than in the shared tape strategy
     let word = prop_oneof![
@@ -671,8 +737,8 @@ fn history_strategy() -> impl Strategy<Value = History> {
         proptest::collection::vec(proptest::bool::weighted(1.0), gen::MAX_OPS),
         proptest::collection::vec(word, 120..900).prop_map(|data| Tape { data }),
     )
-        .prop_map(|(keep, tape)| {
-            let h = gen::history_from_tape(&tape);
+        .prop_map(move |(keep, tape)| {
+            let h = gen::history_from_tape_cfg(&tape, cfg);
             let mut ops = Vec::new();
             let mut how = Vec::new();
             for (i, op) in h.ops.into_iter().enumerate() {
@@ -697,9 +763,16 @@ fn run(ctx: &mut RunCtx) {
         tier.pick(400, 20_000),
         check_history,
     );
-    if !FAILED.load(Ordering::Relaxed) {
+    // second search: the same property through trust_hir::Project (keys, allocated ids)
+    ctx.search(
+        "project",
+        history_strategy_cfg(&gen::PROJECT_CFG),
+        tier.pick(200, 8_000),
+        check_project_history,
+    );
+    if !DB_BUDGET.failed.load(Ordering::Relaxed) && !PROJECT_BUDGET.failed.load(Ordering::Relaxed) {
         ctx.note(format!(
-            "worker {}: {} per-file answer groups (diagnostics / analyze diagnostics / analyze symbols / file symbols / expression types) and {} single query answers compared with {} brand-new databases",
+            "worker {}: {} per-file answer groups (diagnostics / analyze diagnostics / analyze symbols / file symbols / expression types) and {} single query answers compared with {} brand-new databases / projects",
             ctx.worker,
             COMPARED_SNAPSHOT_PARTS.load(Ordering::Relaxed),
             COMPARED_QUERIES.load(Ordering::Relaxed),
